@@ -266,35 +266,41 @@ pub fn check_exact(
             describe(&want)
         ));
     }
-    // recurse: pair every struct-typed expected child with the field bound to it
+    // recurse: pair every struct-typed expected child with the field bound to it. When several
+    // fields are bound to the same name (ns:a next to a), any pairing that works is accepted
+    let mut used: Vec<usize> = Vec::new();
     for (ci, c) in kids.iter().enumerate() {
         if c.node.string_typed() {
             continue;
         }
         let bound = b.child_bound(&c.name);
-        let fi = if order == Order::Ignore {
+        let candidates: Vec<usize> = if order == Order::Ignore {
             st.fields
                 .iter()
-                .position(|f| f.bound() == bound && f.base != "String")
+                .enumerate()
+                .filter(|(fi, f)| f.bound() == bound && f.base != "String" && !used.contains(fi))
+                .map(|(fi, _)| fi)
+                .collect()
         } else {
-            Some(first_child + ci)
+            vec![first_child + ci]
         };
-        let sub = fi.and_then(|fi| tree.kids.iter().find(|(i, _)| *i == fi));
-        match sub {
-            Some((_, sub)) => check_exact(
-                &c.node,
-                structs,
-                sub,
-                b,
-                order,
-                &format!("{}/{}", path, c.name),
-            )?,
-            None => {
-                return Err(format!(
-                    "{}: no struct found for child {} of struct {}",
-                    path, c.name, st.name
-                ))
+        let mut last_err = format!("{}: no struct found for child {} of struct {}", path, c.name, st.name);
+        let mut ok = false;
+        for fi in candidates {
+            match tree.kids.iter().find(|(i, _)| *i == fi) {
+                Some((_, sub)) => match check_exact(&c.node, structs, sub, b, order, &format!("{}/{}", path, c.name)) {
+                    Ok(()) => {
+                        used.push(fi);
+                        ok = true;
+                        break;
+                    }
+                    Err(e) => last_err = e,
+                },
+                None => {}
             }
+        }
+        if !ok {
+            return Err(last_err);
         }
     }
     Ok(())
